@@ -48,7 +48,7 @@ def cases(tier, seed):
         if mode != 'fixed':
             nlev = 1 if mode == 'adaptive' else nlev
         cs.append(dict(kind='time', procs=procs, nlev=nlev, predict=[None, 'fine_only', 'pfasst_burnin'][int(rng.integers(0, 3))] if nlev > 1 else None, jac=bool(rng.random() < 0.5) if mode != 'adaptive' else False,
-                       mode=mode, nsteps=int(rng.integers(1, 3 * procs + 1)), maxiter=int(rng.integers(1, 5)), restol=float(rng.choice([-1.0, 1e-8])), prob=['heat', 'dahlquist'][i % 2] if nlev == 1 else 'heat',
+                       mode=mode, nsteps=int(rng.integers(1, 3 * procs + 1)), maxiter=int(rng.integers(1, 5)), restol=float(rng.choice([-1.0, 1e-8, 1e-3, 0.05, 0.2, 1.0])), prob=['heat', 'dahlquist'][i % 2] if nlev == 1 else 'heat',
                        a2d=bool(rng.random() < 0.2), rffs=bool(rng.random() < 0.3), mr=int(rng.integers(1, 4)), nsched=nsched, seed=int(rng.integers(0, 2**31)), _cost=procs * nlev * nsched))
     for i in range(10 if tier == 'quick' else 90):
         M = int(rng.integers(2, 5))
